@@ -547,7 +547,19 @@ fn main() {
             if c.0.expect_sat() && seen_k_ops.insert(kkey(&c.0.op)) {
                 match vgad::scratch_min_k(&c.0, 9, 13) {
                     Some(k) => sk = sk.max(k),
-                    None => cx.machinery_error(format!("from-scratch circuit of {:?} does not fit k <= 13", c.0.op)),
+                    None => {
+                        // no k at which the honest circuit synthesises: a machinery problem only if
+                        // the reason is the number of rows; any other failure of an in-domain case
+                        // is the honest group's to report (completeness)
+                        let run = vgad::run_once(c, 13, vec![], false);
+                        let why = format!("{:?}", run.outcome);
+                        if why.contains("NotEnoughRows") || why.contains("not enough rows") || run.outcome == Outcome::Sat {
+                            cx.machinery_error(format!("from-scratch circuit of {:?} does not fit k <= 13 ({why})", c.0.op));
+                        } else {
+                            sk = sk.max(10);
+                            cx.note(format!("sizing: {:?} does not synthesise at any k <= 13 for a reason other than its size; left to the honest run", c.0.op));
+                        }
+                    }
                 }
             }
         }
